@@ -4,11 +4,12 @@
         `P <idKey> <contents> <screen|-> <avs>`   audioProgramme
         `C <objects> <avs>`                       audioContent
         `O <packs> <tracks> <subObjects> <complementary> <start> <duration> <gain> <mute> <posOff> <importance> <avs>`
-        `K <type> <channels> <subPacks> <importance> <absDist> <normalization> <nfcRefDist> <screenRef>`  audioPackFormat
-        `H <type> <lowPass> <highPass> <blocks> <order> <degree> <rtime> <duration> <gain> <importance> <normalization> <nfcRefDist> <screenRef>`  audioChannelFormat
+        `K <type> <channels> <subPacks> <importance> <absDist> <normalization> <nfcRefDist> <screenRef> <inputPack> <outputPack> <encodePacks>`  audioPackFormat
+        `H <type> <lowPass> <highPass> <blocks> <order> <degree> <rtime> <duration> <gain> <importance> <normalization> <nfcRefDist> <screenRef> <outputChannel> <matrixGain> <coeffs>`  audioChannelFormat (a matrix coefficient is `input:gain:delay`)
         `S <channel>` audioStreamFormat   `F <stream>` audioTrackFormat   `U <trackIndex> t<i>|c<i> <pack>` audioTrackUID
         lists are comma separated (`_` = empty), options use `-`, rationals are `num/den`, booleans 0/1,
         silent tracks are `s`, an alternativeValueSet is `label:gain:mute:posOff`.
+        track specs in the output: `D<i>` direct, `S` silent, `M(<spec>|gain|delay)`, `X[<spec>+<spec>..]` mix, `G(<spec>|gain)`.
    out: `ok <item> ; <item> ...` (items in selection order) | `err <kind>` | `bad-op`. -/
 import Earverif.Model.SelectItems
 import Earverif.Driver.Util
@@ -35,6 +36,11 @@ def pBool (s : String) : Option Bool :=
 
 def pTrack (s : String) : Option (Option Nat) := if s == "s" then some none else (pNat s).map some
 
+def pCoeff (s : String) : Option Coeff :=
+  match s.splitOn ":" with
+  | [i, g, d] => do some ⟨← pNat i, ← pOpt pRat g, ← pOpt pRat d⟩
+  | _ => none
+
 def pAvs (s : String) : Option Avs :=
   match s.splitOn ":" with
   | [l, g, m, o] => do some ⟨← pNat l, ← pOpt pRat g, ← pOpt pBool m, ← pOpt pNat o⟩
@@ -60,14 +66,15 @@ def addSeg (r : Req) (ws : List String) : Option Req :=
     let o : Obj := ⟨← pList pNat pk, ← pList pTrack tr, ← pList pNat su, ← pList pNat co, ← pOpt pRat st,
       ← pOpt pRat du, ← pRat g, ← pBool m, ← pOpt pNat po, ← pOpt String.toInt? im, ← pList pAvs av⟩
     some { r with adm := { a with objects := a.objects ++ [o] } }
-  | ["K", ty, ch, su, im, ad, no, nf, sr] => do
+  | ["K", ty, ch, su, im, ad, no, nf, sr, ip, op, ep] => do
     let p : Pack := ⟨← pNat ty, ← pList pNat ch, ← pList pNat su, ← pOpt String.toInt? im, ← pOpt pRat ad,
-      ← pOpt pNat no, ← pOpt pRat nf, ← pOpt pBool sr⟩
+      ← pOpt pNat no, ← pOpt pRat nf, ← pOpt pBool sr, ← pOpt pNat ip, ← pOpt pNat op, ← pList pNat ep⟩
     some { r with adm := { a with fmt := { a.fmt with packs := a.fmt.packs ++ [p] } } }
-  | ["H", ty, lo, hi, bl, od, dg, rt, du, g, im, no, nf, sr] => do
+  | ["H", ty, lo, hi, bl, od, dg, rt, du, g, im, no, nf, sr, oc, mg, co] => do
     let h : HoaBlock := ⟨← od.toInt?, ← dg.toInt?, ← pOpt pRat rt, ← pOpt pRat du, ← pRat g, ← im.toInt?,
       ← pOpt pNat no, ← pOpt pRat nf, ← pOpt pBool sr⟩
-    let c : Channel := ⟨← pNat ty, ← pOpt pRat lo, ← pOpt pRat hi, ← pList pNat bl, h⟩
+    let m : MatrixBlock := ⟨← pOpt pNat oc, ← pRat mg, ← pList pCoeff co⟩
+    let c : Channel := ⟨← pNat ty, ← pOpt pRat lo, ← pOpt pRat hi, ← pList pNat bl, h, m⟩
     some { r with adm := { a with fmt := { a.fmt with channels := a.fmt.channels ++ [c] } } }
   | ["S", c] => do
     some { r with adm := { a with fmt := { a.fmt with streamFormats := a.fmt.streamFormats ++ [← pNat c] } } }
@@ -91,9 +98,16 @@ def sNat (n : Nat) : String := toString n
 def sInt (n : Int) : String := toString n
 def sPath (p : List Nat) : String := sList sNat "." p
 
+partial def sSpec : TSpec → String
+  | .direct i => s!"D{i}"
+  | .silent => "S"
+  | .matrix t g d => s!"M({sSpec t}|{sOpt sRat g}|{sOpt sRat d})"
+  | .mix ts => "X[" ++ "+".intercalate (ts.map sSpec) ++ "]"
+  | .gain t g => s!"G({sSpec t}|{sRat g})"
+
 def showItem (i : Item) : String :=
   let e := i.extra
-  let base := s!"k={i.kind} t={sList (fun (t : Option Nat) => match t with | none => "s" | some n => toString n) "," i.tracks} ch={sList sNat "," i.channels}" ++
+  let base := s!"k={i.kind} t={sList sSpec "," i.tracks} ch={sList sNat "," i.channels}" ++
     s!" pr={sOpt sNat i.programme} co={sOpt sNat i.content} op={sOpt sPath i.objPath}" ++
     s!" pp={sList sPath "," i.packPaths}" ++
     s!" st={sOpt sRat e.objectStart} du={sOpt sRat e.objectDuration} sc={sOpt sNat e.screen}" ++
@@ -112,7 +126,7 @@ def showErr : Err → String
   | .notComplementary => "notComplementary"
   | .multipleSelected => "multipleSelected"
   | .conflicting => "conflicting"
-  | .unsupported => "unsupported"
+  | .ambiguous => "ambiguous"
   | .pathParamConflict => "pathParamConflict"
   | .paramMismatch => "paramMismatch"
   | .notImplemented => "notImplemented"
